@@ -785,6 +785,58 @@ def enum_containers():
     return out
 
 
+def aliased_values():
+    """values in which the SAME inner list / dict object is reachable twice or more: under dict keys whose insertion order
+    is not the sorted order, inside lists, at different depths, two aliased objects interleaved, an alias inside an aliased
+    object (JSON domain; equality of the decoded value with the original is the oracle, identity of the aliases is not)"""
+    out = []
+    for mk in (lambda: [1], lambda: {"k": [1]}, lambda: [], lambda: {}, lambda: [[2], {"q": "r"}], lambda: {"b": 1, "a": [2, 3]}):
+        x = mk()
+        out.append({"z": x, "m": [5], "a": x})
+        x = mk()
+        out.append({"a": x, "m": [5], "z": x})                       # sorted insertion order (control)
+        x = mk()
+        out.append([x, [5], x])
+        x = mk()
+        out.append({"z": {"q": x}, "n": [5], "b": [x, {"y": 0}], "a": x})     # three depths
+        x = mk()
+        out.append([{"z": x, "c": [x]}, {"d": 1}, {"b": x}])
+        x = mk()
+        out.append({"z": x, "y": x, "x": x, "c": [7], "b": x, "a": {"p": 1}})  # many references, other containers in between
+    hi, lo = [100], [0]
+    out.append({"y": hi, "x": lo, "b": hi, "a": lo})
+    hi, lo = {"v": [100]}, {"v": [0]}
+    out.append({"y": hi, "x": lo, "b": hi, "a": lo})
+    hi, lo = [100], {"v": 0}
+    out.append([{"z": hi, "k": lo}, [lo, hi], {"b": lo, "a": hi}])
+    inner = [1]
+    mid = {"z": inner, "a": inner}
+    out.append({"z": mid, "m": [5], "a": mid, "0": inner})           # an alias inside an aliased object
+    inner = {"k": "v"}
+    mid = [inner, [9], inner]
+    out.append({"q": mid, "p": {"zz": inner, "aa": mid}, "a": [mid]})
+    s = "shared-string" * 3
+    out.append({"z": s, "m": [s], "a": s})                           # immutable leaves shared (never a back-reference)
+    return out
+
+
+def aliased_extra():      # pickle / jsonpickle only: tuples, sets, objects
+    out = []
+    t = (1, [2])
+    out.append({"z": t, "m": [5], "a": t})
+    x = [1]
+    out.append(({"z": x, "a": (x, [5])}, x))
+    x = {"k": [1]}
+    out.append(T.Point(x, x))
+    x = [1]
+    out.append({"z": T.Point(x, 2), "m": [5], "a": x})
+    p = T.Point(1, [2])
+    out.append({"z": p, "m": [5], "a": p})
+    x = [3]
+    out.append({"z": {1, 2}, "y": x, "b": (x,), "a": x})
+    return out
+
+
 def json_values(rng, n):
     leaves = SCALARS + [T.Color.RED, T.Color.BLUE, T.Level.HIGH, T.Mode.FAST, T.Money(3, "EUR"), T.Money(1.5, "€")]
 
@@ -795,7 +847,7 @@ def json_values(rng, n):
         if r < 0.72:
             return [tree(depth - 1) for _ in range(rng.randint(0, 3))]
         return {rstr(rng, 0, 3): tree(depth - 1) for _ in range(rng.randint(0, 3))}
-    out = list(leaves) + enum_containers() + [[], {}, [[]], {"": {}}, [1, [2, [3, [4]]]], {"k": [T.Color.RED, {"z": T.Level.LOW}]}]
+    out = list(leaves) + aliased_values() + enum_containers() + [[], {}, [[]], {"": {}}, [1, [2, [3, [4]]]], {"k": [T.Color.RED, {"z": T.Level.LOW}]}]
     out += [tree(4) for _ in range(n)]
     return out
 
@@ -806,7 +858,7 @@ def exc_values():
 
 
 def extra_values():      # pickle / jsonpickle only
-    return [(1, 2), (1, (2, [3])), {1, 2, 3}, frozenset({"a"}), b"\x00\xffbytes", T.Point(1, 2.5), {"t": (1, 2)}, [(), set()],
+    return aliased_extra() + [(1, 2), (1, (2, [3])), {1, 2, 3}, frozenset({"a"}), b"\x00\xffbytes", T.Point(1, 2.5), {"t": (1, 2)}, [(), set()],
             (T.Level.HIGH,), (1, T.Mode.FAST, "a"), (T.Color.RED, (T.Level.LOW, 2)), {"t": (T.Mode.SLOW, 1.5)}, frozenset({T.Level.HIGH, 1})]
 
 
@@ -834,7 +886,7 @@ def run_e2e(ctx: Ctx, scratch: str):
         if ser != "JsonSerializer":
             vals += extra_values()
         if not ctx.thorough and ser != "JsonSerializer":
-            vals = vals[:len(SCALARS) + 12] + exc_values() + extra_values()
+            vals = vals[:len(SCALARS) + 6] + aliased_values() + enum_containers()[:12] + exc_values() + extra_values()
         per_ser[ser] = per_ser.get(ser, 0) + len(vals)
 
         def report(what, v, got, extra, after_purge=False):
